@@ -5,3 +5,4 @@ import MpsVerif.Drv.IterQueue
 import MpsVerif.Props.C01
 import MpsVerif.Props.C05
 import MpsVerif.Props.C08
+import MpsVerif.Props.C17
